@@ -42,7 +42,7 @@ def main():
         except subprocess.TimeoutExpired:
             return "timeout", ""
     rc1, out1 = build_and_demo("with")
-    t = sh(f"ctest --test-dir {wt}/_b -j8 --timeout 900 | tail -3")
+    t = sh(f"ctest --test-dir {wt}/_b -j1 --timeout 900 | tail -3")
     meta["confirmed"]["ctest_with_change"] = t.stdout.strip().splitlines()[-3:] if t.stdout else t.stderr
     meta["confirmed"]["demo_exit_with_change"] = rc1
     meta["confirmed"]["demo_output_with_change"] = out1
